@@ -37,8 +37,9 @@ RULE = (
 )
 ASSUMPTIONS = [
     "after a connection error (close() called on the transport) the layer ignores further input by design: when the "
-    "reference delivery closes, only 'closed with the same code' is compared, not per-stream content; with more than one "
-    "deliberate protocol error in a case, a differing close code is only counted",
+    "reference delivery closes, only 'closed with the same code' is compared, not per-stream content; a delivery that "
+    "closes with another code is accepted (counted) iff delivering exactly the per-stream prefixes it had received, whole "
+    "and in sender order, closes with that same code (several independent errors, first one wins)",
     "an interleaving is restricted to be causal: bytes the sender emitted after it had processed the receiver's QPACK "
     "decoder feedback (phase k+1) are never delivered before bytes of phase k",
     "event packaging (number of DataReceived events, which event carries the end flag) is not compared",
@@ -90,12 +91,14 @@ def plan(tier, seed):
             cur, cur_cost = [], 0
     if cur:
         batches.append({"gen": "a_exh", "items": cur})
+    for i in range(3 if quick else 40):
+        batches.append({"gen": "a_exh", "rand": 40, "seed": seed * 1000003 + i})
     # (a2) pairs
     npairs = len(G.pair_catalog())
     for i in range(npairs):
-        batches.append({"gen": "a_pairs", "item": i, "cap": 6000 if quick else 150000, "seed": seed * 1000003 + i})
+        batches.append({"gen": "a_pairs", "item": i, "cap": 17000 if quick else 300000, "seed": seed * 1000003 + i})
     # (a3) frame-level random, (a4) real-sender cases, (b) round trips
-    nf, ns, nrt = (16, 16, 16) if quick else (300, 300, 300)
+    nf, ns, nrt = (20, 20, 20) if quick else (300, 300, 300)
     mixed = []
     for i in range(max(nf, ns, nrt)):
         if i < nf:
@@ -180,66 +183,16 @@ class Checker:
         res.count("ref_outcome_" + ("raised" if r.raised else "closed" if r.closed is not None else "events" if r.events else "silent"))
         self.interesting = bool(r.events or r.closed is not None or r.raised)
         self.lays = {k: L.stream_layout(k, d) for k, (d, f) in case.full_streams().items()}
-        self._sources = None
 
-    def error_sources(self):
-        """Number of independent error sources *as measured on the real receiver*: the context streams
-        (control / QPACK) delivered whole, then every other stream whole on top of the context (or alone if
-        the context itself is the error).  Used only to decide whether a differing close code may be a
-        legitimate consequence of the interleaving."""
-        if self._sources is not None:
-            return self._sources
-        case = self.case
-        if len(case.phases) != 1:
-            self._sources = 1
-            return 1
-        ph = case.phases[0]
-        keys = ph.keys()
-        ctx = [k for k in keys if k != "dg" and self.lays[k][0] in ("control", "qenc", "qdec")]
-        # an additional control / QPACK stream is an error source of its own, not context
-        seen_kinds = set()
-        ctx2 = []
-        for k in ctx:
-            if self.lays[k][0] in seen_kinds:
-                continue
-            seen_kinds.add(self.lays[k][0])
-            ctx2.append(k)
-        ctx = ctx2
-
-        def steps_for(ks):
-            out = []
-            for k in ks:
-                if k == "dg":
-                    out.extend(["dg", 1, False] for _ in ph.dgs)
-                else:
-                    out.append([k, len(ph.data[k]), ph.fin[k]])
-            return [out]
-
-        n = 0
-        good_ctx = []
-        for k in ctx:
-            o = L.deliver(self.env, case, steps_for([k]), partial=True)
-            if o.closed is not None or o.raised:
-                n += 1
-            else:
-                good_ctx.append(k)
-        for k in keys:
-            if k in ctx:
-                continue
-            if k == "dg":
-                # each datagram is its own source
-                for i in range(len(ph.dgs)):
-                    one = L.Case(case.recv_client, case.wt)
-                    one.phases[0].add_dgram(ph.dgs[i])
-                    o = L.deliver(self.env, one, [[["dg", 1, False]]])
-                    if o.closed is not None or o.raised:
-                        n += 1
-                continue
-            o = L.deliver(self.env, case, steps_for(good_ctx + [k]), partial=True)
-            if o.closed is not None or o.raised:
-                n += 1
-        self._sources = n
-        return n
+    def close_is_prefix_consistent(self, sched, var):
+        """`var` closed with another code than the reference.  By design the layer stops at the first error,
+        so which of several errors is reported may depend on the interleaving.  The property still demands
+        that the outcome depends only on the bytes delivered so far: deliver exactly the per-stream prefixes
+        `var` had received when it closed, each whole and in sender order; if that closes with the same code,
+        the difference is a legitimate consequence of the order (counted), otherwise it is chunking-dependent."""
+        pc = L.prefix_case(self.case, sched, var.closed_at)
+        o = L.deliver(self.env, pc, L.ref_schedule(pc))
+        return o.closed == var.closed
 
     def check(self, label, sched, sig_extra=None, full_sig=True):
         res = self.res
@@ -251,10 +204,8 @@ class Checker:
             res.count("deliveries_with_blocked_stream")
         diffs = L.classify(self.case, self.ref, var)
         if diffs and diffs[0][0].startswith("chunk:close-"):
-            if var.closed is not None and self.ref.closed is not None and self.error_sources() > 1:
-                # two independent protocol errors in the case: which one is reported first legitimately
-                # depends on the interleaving
-                res.count("obs_close_code_differs_multi_fault")
+            if var.closed is not None and self.ref.closed is not None and self.close_is_prefix_consistent(sched, var):
+                res.count("obs_close_code_differs_but_prefix_consistent")
                 diffs = []
             else:
                 # name the mechanism: re-run the delivery that closed with the diagnostic probe on
@@ -299,9 +250,13 @@ def _brief(o):
 def a_exh(batch, res):
     env = L.Env()
     _selfcheck()
-    items = G.short_catalog()
-    for idx in batch["items"]:
-        it = items[idx]
+    if "rand" in batch:
+        rng = random.Random(batch["seed"])
+        todo = [G.short_random_item(rng) for _ in range(batch["rand"])]
+    else:
+        items = G.short_catalog()
+        todo = [items[idx] for idx in batch["items"]]
+    for it in todo:
         case = it["case"]
         ck = Checker(env, case, res, it["label"])
         n = 0
@@ -309,7 +264,7 @@ def a_exh(batch, res):
             ck.check("%s/mask=%x/%s" % (order, mask, "fin-alone" if fin_alone else "fin-last"), sched)
             n += 1
         res.count("splittings_enumerated", n)
-        res.count("exh_streams_complete")
+        res.count("exh_random_streams_complete" if "rand" in batch else "exh_streams_complete")
         d, f = case.full_streams()[it["target"]]
         res.sample({"gen": "a_exh", "label": it["label"], "target_hex": d.hex(), "fin": f, "deliveries": n,
                     "reference": _brief(ck.ref)}, limit=2)
@@ -744,8 +699,12 @@ def gen_sender_case(env, rng, res, case_ref):
     case.phases[-1].add_log(sq.take())
     case.expected = exp
     case.label = "sender:%s%s%s%s" % ("client" if sender_is_client else "server", ",wt" if wt else "", ",feedback" if feedback else "", "" if settings else ",no-settings")
-    if rq.closed or sq.closed:
-        raise RuntimeError("shadow exchange closed: %r %r" % (rq.closed, sq.closed))
+    if (rq.closed or sq.closed) and not app.failed:
+        # the shadow receiver got exactly what the real sender emitted, in emission order
+        who, cl = ("receiver", rq.closed) if rq.closed else ("sender-on-feedback", sq.closed)
+        res.violation("stub-roundtrip:valid-submission-rejected:%s:0x%x" % (who, cl[0]),
+                      "%s closed the connection (%r) during an exchange of valid submissions in emission order" % (who, cl), case_ref)
+        app.failed = True
     return case, app
 
 
@@ -1103,7 +1062,9 @@ def _rt_case(env, seed, res, case_ref, HandshakePair, CLIENT_ADDR, SERVER_ADDR):
     if not quiescent:
         res.inconclusive.append("rt seed %r: not quiescent after %d rounds" % (seed, rnd))
         return
-    lossy = net == "lossy"
+    # a held-back packet may arrive below the receiver's duplicate-suppression floor and be discarded, which is
+    # loss as far as (unreliable) DATAGRAM frames are concerned: only the undisturbed link must deliver them all
+    lossy = net != "plain"
     n = compare_expected(exp_c2s, S.out, res, case_ref, "rt:c2s", ordered_dgrams=False, lossy=lossy)
     n += compare_expected(exp_s2c, C.out, res, case_ref, "rt:s2c", ordered_dgrams=False, lossy=lossy)
     res.count("rt_streams_compared", n)
